@@ -5,6 +5,7 @@ import StVerif.Model.Slice
 import StVerif.Model.Split
 import StVerif.Model.Compare
 import StVerif.Model.Codec
+import StVerif.Model.Num
 
 namespace Driver.Str
 open StVerif StVerif.Pool StVerif.StrPool Driver
@@ -155,6 +156,21 @@ def expectedK (p : Pool) (name : String) (v : List Nat) (xn yn : Int) : Option (
   else if name == "copyvia" then some v
   else if name == "fromlatin1" then okList (Utf.stringFrom .latin1 .checkValidity (some v))
   else if name == "fromutf8" then some (Utf.cleanupUtf8 v)
+  else if name == "plusc" then okList ((Utf.stringFrom .utf8 .checkValidity (some (upToNul (slot xn)))).map (v ++ ·))
+  else if name == "cplus" then okList ((Utf.stringFrom .utf8 .checkValidity (some (upToNul (slot xn)))).map (· ++ v))
+  else if name == "plusch" then (Utf.writeUtf8 xn.toNat).map (v ++ ·)
+  else if name == "chplus" then (Utf.writeUtf8 xn.toNat).map (· ++ v)
+  else if name == "fill" then some (List.replicate xn.toNat (yn.toNat % 256))
+  else if name == "fromint" then okList (Num.fromInt .s64 10 false xn)
+  else if name == "via16" then okList ((Utf.stringTo .utf16 true v).bind fun u => Utf.stringFrom .utf16 .checkValidity (some u))
+  else if name == "via32" || name == "viaw" then okList ((Utf.stringTo .utf32 true v).bind fun u => Utf.stringFrom .utf32 .checkValidity (some u))
+  else if name == "viastd" then okList (Utf.stringFrom .utf8 .checkValidity (some v))
+  else if name == "fromutf8c" then okList (Utf.stringFrom .utf8 .checkValidity (some v))
+  else if name == "toutf8" then some v
+  else if name == "tolatin1" then okList (Utf.stringTo .latin1 true v)
+  else if name == "tolatin1x" then okList (Utf.stringTo .latin1 false v)
+  else if name == "hexdec" then okList (Codec.hexDecodeAlloc v)
+  else if name == "b64dec" then okList (Codec.b64DecodeAlloc v)
   else if name == "hexenc" then some (Codec.hexEncode v)
   else if name == "b64enc" then some (Codec.b64Encode v)
   else none
